@@ -1,7 +1,7 @@
 SPECIFICATION MCSpec
 CONSTANTS
   Dev = {}
-  Fam = "acct"
+  Fam = "all"
   NonceChoice <- MinOnly
   Deep = FALSE
 INVARIANTS TypeOK NonceNeverReused RespondWhilePresented CleanupAlways CertOnlyIfAllValid PollStops OutcomeExact ServedOnlyWhilePresented PoolSound Emit
